@@ -991,3 +991,154 @@ Example C09_itemseq_table_rejects_contains_loop :
   items_equal_gen 20 (IItems false (Some [IIri false ex_alice; IIri false ex_alice]))
                      (IItems false (Some [IIri false ex_alice; IIri false ex_bob])) = Ok false.
 Proof. cbv zeta. repeat split; vm_compute; reflexivity. Qed.
+
+(* ==================================================================================================================
+   ---- the list comparison as a relation between lists: symmetry, multiset equality (builder b59) ----
+   Left open by b58.  ItemCollection.Equals (after the length test) lets every member x of the receiver take the first
+   member m of the argument, not taken before, with ItemsEqual(m, x): a greedy matching.  ItemsEqual answers for every
+   pair (C09_no_panic), so it is a total boolean relation [ieqb] (C09_ieqb).  Proofs/EqualListSymP.v proves, for ANY
+   member relation that is an equivalence on the members that occur (reflexive, symmetric, transitive on l1 ++ l2: the
+   decidable condition [equiv_on], said with ItemsEqual itself in C09_list_equiv_condition), that the greedy matching
+   with the length test is equality of the two lists as multisets up to the relation - every member y has as many
+   equals ([cnt]: members m with ItemsEqual(m, y)) in one list as in the other - hence symmetric, transitive and
+   blind to the order of the members.
+   ItemsEqual is NOT an equivalence on all items (C09_itemsequal_not_equivalence_example): Object.Equals looks only at
+   what its ARGUMENT sets, so a bare object and a copy with a name are equal in one argument order only; an IRI equals
+   every object with that id, two of which need not be equal.  On such members the list comparison is not symmetric
+   and depends on the order of the members (C09_list_asymmetric_example, C09_list_order_example).  The property asks
+   for reflexivity, nil-correctness and sensitivity of the comparison, not symmetry: recorded, not a defect. *)
+From AP.Proofs Require Import EqualListSymP.
+
+Theorem C09_ieqb : forall x y, ieq x y = Ok (ieqb x y).
+Proof. exact ieq_ieqb. Qed.
+Theorem C09_list_equiv_condition : forall l,
+  equiv_on ieqb l = true <->
+  (forall a b, In a l -> In b l -> ieq a b = ieq b a) /\
+  (forall a b c, In a l -> In b l -> In c l -> ieq a b = Ok true -> ieq b c = Ok true -> ieq a c = Ok true).
+Proof. exact equiv_on_ieq. Qed.
+
+(* ItemsEqual on two lists (value or pointer form, not the nil list) whose members ItemsEqual treats as an equivalence:
+   the same answer in both argument orders *)
+Theorem C09_list_symmetric : forall p q l1 l2, equiv_on ieqb (l1 ++ l2) = true ->
+  ieq (IItems p (Some l1)) (IItems q (Some l2)) = ieq (IItems q (Some l2)) (IItems p (Some l1)).
+Proof. exact ieq_list_sym. Qed.
+(* ... and the answer is: equal as multisets (true: all counts agree; false: some member's counts differ) *)
+Theorem C09_list_multiset : forall p q l1 l2, equiv_on ieqb (l1 ++ l2) = true ->
+  (ieq (IItems p (Some l1)) (IItems q (Some l2)) = Ok true <->
+   forall y, In y (l1 ++ l2) -> cnt ieqb y l1 = cnt ieqb y l2) /\
+  (ieq (IItems p (Some l1)) (IItems q (Some l2)) = Ok false <->
+   exists y, In y (l1 ++ l2) /\ cnt ieqb y l1 <> cnt ieqb y l2).
+Proof. exact ieq_list_multiset. Qed.
+Theorem C09_list_transitive : forall p q r l1 l2 l3, equiv_on ieqb (l1 ++ l2 ++ l3) = true ->
+  ieq (IItems p (Some l1)) (IItems q (Some l2)) = Ok true -> ieq (IItems q (Some l2)) (IItems r (Some l3)) = Ok true ->
+  ieq (IItems p (Some l1)) (IItems r (Some l3)) = Ok true.
+Proof. exact ieq_list_trans. Qed.
+(* a list equals each of its rearrangements, in both argument orders *)
+Theorem C09_list_rearranged : forall p q l l', equiv_on ieqb l = true -> Permutation.Permutation l l' ->
+  ieq (IItems p (Some l)) (IItems q (Some l')) = Ok true /\ ieq (IItems q (Some l')) (IItems p (Some l)) = Ok true.
+Proof. exact ieq_list_perm. Qed.
+
+(* the hypothesis cannot be dropped: on lists of one member ItemsEqual([x], [y]) IS ItemsEqual(y, x) (the member of
+   the argument goes first in the call) *)
+Theorem C09_list_singleton : forall p q x y, ieq (IItems p (Some [x])) (IItems q (Some [y])) = ieq y x.
+Proof. exact ieq_singleton. Qed.
+
+(* the method ItemCollection.Equals of the repaired code, for ANY member comparison [rec] that answers (no panic, no
+   error, fuel enough) on the members of the two lists with a boolean relation [eqm] that is an equivalence on them *)
+Theorem C09_itemcoll_symmetric : forall rec eqm l1 l2 p q,
+  (forall a b, In a (l1 ++ l2) -> In b (l1 ++ l2) -> rec a b = Ok (eqm a b)) ->
+  equiv_on eqm (l1 ++ l2) = true ->
+  itemcoll_equals cfg_fixed rec l1 (IItems q (Some l2)) = itemcoll_equals cfg_fixed rec l2 (IItems p (Some l1)).
+Proof. exact itemcoll_equals_sym. Qed.
+Theorem C09_itemcoll_multiset : forall rec eqm l1 l2 q,
+  (forall a b, In a (l1 ++ l2) -> In b (l1 ++ l2) -> rec a b = Ok (eqm a b)) ->
+  equiv_on eqm (l1 ++ l2) = true ->
+  exists b, itemcoll_equals cfg_fixed rec l1 (IItems q (Some l2)) = Ok b /\
+            (b = true <-> forall y, In y (l1 ++ l2) -> cnt eqm y l1 = cnt eqm y l2).
+Proof. exact itemcoll_equals_multiset. Qed.
+(* the matching alone (no length test), for any relation that is an equivalence on a set P holding the members:
+   true exactly when the receiver is a sub-multiset of the argument; the pure functions are the model's *)
+Theorem C09_matching_submultiset : forall eqm (P : item -> Prop),
+  (forall a, P a -> eqm a a = true) -> (forall a b, P a -> P b -> eqm a b = eqm b a) ->
+  (forall a b c, P a -> P b -> P c -> eqm a b = true -> eqm b c = true -> eqm a c = true) ->
+  forall i w, Forall P i -> Forall P w -> (allrm eqm i w = true <-> forall y, P y -> cnt eqm y i <= cnt eqm y w).
+Proof. exact allrm_submultiset. Qed.
+Theorem C09_matching_pure : forall eqm rec i w,
+  (forall m x, In m w -> In x i -> rec m x = Ok (eqm m x)) -> all_removed rec i w = Ok (allrm eqm i w).
+Proof. exact all_removed_pure. Qed.
+
+(* the wide instance *)
+Theorem C09_list_symmetric_u : forall p q l1 l2, equiv_on (ElSG.ieqb iri_equ) (l1 ++ l2) = true ->
+  ieq_u (IItems p (Some l1)) (IItems q (Some l2)) = ieq_u (IItems q (Some l2)) (IItems p (Some l1)).
+Proof. exact (ElSG.ieq_list_sym iri_equ). Qed.
+Theorem C09_list_multiset_u : forall p q l1 l2, equiv_on (ElSG.ieqb iri_equ) (l1 ++ l2) = true ->
+  (ieq_u (IItems p (Some l1)) (IItems q (Some l2)) = Ok true <->
+   forall y, In y (l1 ++ l2) -> cnt (ElSG.ieqb iri_equ) y l1 = cnt (ElSG.ieqb iri_equ) y l2) /\
+  (ieq_u (IItems p (Some l1)) (IItems q (Some l2)) = Ok false <->
+   exists y, In y (l1 ++ l2) /\ cnt (ElSG.ieqb iri_equ) y l1 <> cnt (ElSG.ieqb iri_equ) y l2).
+Proof. exact (ElSG.ieq_list_multiset iri_equ). Qed.
+Theorem C09_list_equiv_condition_u : forall l,
+  equiv_on (ElSG.ieqb iri_equ) l = true <->
+  (forall a b, In a l -> In b l -> ieq_u a b = ieq_u b a) /\
+  (forall a b c, In a l -> In b l -> In c l -> ieq_u a b = Ok true -> ieq_u b c = Ok true -> ieq_u a c = Ok true).
+Proof. exact (ElSG.equiv_on_ieq iri_equ iri_equ_refl). Qed.
+
+(* non-vacuity: IRIs and objects, a repeated member, an IRI and an object with the same id in one class (the members
+   of the harness block c09Repeated).  The condition holds; the lists are equal as multisets and compare equal in both
+   orders; a list with other multiplicities does not *)
+Example C09_example_list_multiset :
+  let a := IIri false ex_alice in let a' := ex_note ex_alice [] in let b := ex_note ex_bob [] in let c := IIri true ex_bob in
+  let l1 := [a; b; a'] in let l2 := [c; a; a] in let l3 := [a'; b; b] in
+  equiv_on ieqb (l1 ++ l2) = true /\ equiv_on ieqb (l1 ++ l3) = true /\
+  ieq (IItems false (Some l1)) (IItems true (Some l2)) = Ok true /\
+  ieq (IItems true (Some l2)) (IItems false (Some l1)) = Ok true /\
+  (cnt ieqb a l1, cnt ieqb a l2, cnt ieqb b l1, cnt ieqb b l2) = (2, 2, 1, 1) /\
+  ieq (IItems false (Some l1)) (IItems false (Some l3)) = Ok false /\
+  ieq (IItems false (Some l3)) (IItems false (Some l1)) = Ok false /\
+  (cnt ieqb b l1, cnt ieqb b l3) = (1, 2).
+Proof. cbv zeta. repeat split; vm_compute; reflexivity. Qed.
+Example C09_example_list_multiset_u :
+  let a := IIri false (B "https://example.com/users/%41lice") in let a' := ex_note_u (B "HTTPS://EXAMPLE.com/users/Alice/") in
+  let b := ex_note_u (B "https://example.com/users/%2541lice") in
+  let l1 := [a; b; a'] in let l2 := [b; a; a] in
+  equiv_on (ElSG.ieqb iri_equ) (l1 ++ l2) = true /\
+  ieq_u (IItems false (Some l1)) (IItems true (Some l2)) = Ok true /\
+  ieq_u (IItems true (Some l2)) (IItems false (Some l1)) = Ok true /\
+  ieq_u (IItems false (Some [a; b; b])) (IItems false (Some l2)) = Ok false.
+Proof. cbv zeta. repeat split; vm_compute; reflexivity. Qed.
+
+(* ItemsEqual is not an equivalence on all items.
+   o : a Note; on : the same Note with a name; os : the same Note with a summary; i : the IRI of their id.
+   - not symmetric: ItemsEqual(on, o) = on.Equals(o) looks at what o sets (nothing more): true; the other order finds
+     the name of on unset in o: false;
+   - not transitive: on = i and i = os (an IRI equals any object with that id, in both orders), on <> os. *)
+Example C09_itemsequal_not_equivalence_example :
+  let i := IIri false ex_alice in let o := ex_note ex_alice [] in
+  let on := ex_note ex_alice [(F_Name, FNlv (Some [(B "en", B "n")]))] in
+  let os := ex_note ex_alice [(F_Summary, FNlv (Some [(B "en", B "s")]))] in
+  ieq on o = Ok true /\ ieq o on = Ok false /\
+  ieq on i = Ok true /\ ieq i on = Ok true /\ ieq i os = Ok true /\ ieq os i = Ok true /\
+  ieq on os = Ok false /\ ieq os on = Ok false /\
+  equiv_on ieqb [o; on] = false /\ equiv_on ieqb [i; on; os] = false.
+Proof. cbv zeta. repeat split; vm_compute; reflexivity. Qed.
+(* then the list comparison is not symmetric: the same two lists (a repeated IRI and one object), the two orders *)
+Example C09_list_asymmetric_example :
+  let i := IIri false ex_alice in let o := ex_note ex_bob [] in
+  let on := ex_note ex_bob [(F_Name, FNlv (Some [(B "en", B "n")]))] in
+  ieq (IItems false (Some [i; o; i])) (IItems false (Some [i; i; on])) = Ok true /\
+  ieq (IItems false (Some [i; i; on])) (IItems false (Some [i; o; i])) = Ok false /\
+  ieq_u (IItems false (Some [i; o; i])) (IItems false (Some [i; i; on])) = Ok true /\
+  ieq_u (IItems false (Some [i; i; on])) (IItems false (Some [i; o; i])) = Ok false.
+Proof. cbv zeta. repeat split; vm_compute; reflexivity. Qed.
+(* and it depends on the order of the members even where ItemsEqual is symmetric on them (not transitive): the IRI
+   takes the first object with its id, and the object that comes after finds only the other one left.  A one-to-one
+   matching exists for both arrangements; the greedy loop finds it for one *)
+Example C09_list_order_example :
+  let i := IIri false ex_alice in
+  let on := ex_note ex_alice [(F_Name, FNlv (Some [(B "en", B "n")]))] in
+  let os := ex_note ex_alice [(F_Summary, FNlv (Some [(B "en", B "s")]))] in
+  ieq (IItems false (Some [on; i])) (IItems false (Some [on; os])) = Ok true /\
+  ieq (IItems false (Some [i; on])) (IItems false (Some [on; os])) = Ok false /\
+  ieq (IItems false (Some [on; os])) (IItems false (Some [on; i])) = Ok true /\
+  ieq (IItems false (Some [on; os])) (IItems false (Some [i; on])) = Ok false.
+Proof. cbv zeta. repeat split; vm_compute; reflexivity. Qed.
